@@ -82,6 +82,28 @@ Theorem C08_pinned_writer_unreadable (key sig payload : Type) (sig_ok : key -> p
 Proof. exact (Sig.C08_pinned_writer_unreadable key sig payload sig_ok sign vs t have p). Qed.
 Print Assumptions C08_pinned_writer_unreadable.
 
+(* versions added later do not change which keys were in force at an earlier time, provided their time is
+   strictly later (Identity.Mutate gives a new version the NEXT value of the clock) ... *)
+Theorem C08_later_versions_do_not_reach_back (key : Type) (vs more : list (version key)) t :
+  (forall q, In q (eff more (lastref vs 0)) -> t < fst q) -> valid_keys_at (vs ++ more) t = valid_keys_at vs t.
+Proof. exact (Sig.later_versions_do_not_reach_back key vs more t). Qed.
+Print Assumptions C08_later_versions_do_not_reach_back.
+
+(* ... hence what the writer stored stays readable whatever its author does to his keys afterwards *)
+Theorem C08_written_stays_accepted (key sig payload : Type) (sig_ok : key -> payload -> sig -> bool) (sign : key -> payload -> sig)
+  (correct : forall k p, sig_ok k p (sign k p) = true) (vs more : list (version key)) t have p s :
+  Forall (fun q => fst q <= t) (eff vs 0) -> (forall q, In q (eff more (lastref vs 0)) -> t < fst q) ->
+  write sign vs t have p = Some s -> accept sig_ok (vs ++ more) t p s = true.
+Proof. exact (Sig.C08_written_stays_accepted key sig payload sig_ok sign correct vs more t have p s). Qed.
+Print Assumptions C08_written_stays_accepted.
+
+(* the pinned Identity.Mutate gave the new version the clock's CURRENT value, which is the time of the last commit
+   written: such a version reaches back, and the author's own last commit, rightly unsigned, needs a signature *)
+Theorem C08_same_time_version_refuted : exists (vs : list (version N)) v t,
+  fst v = Some t /\ valid_keys_at vs t = [] /\ valid_keys_at (vs ++ [v]) t <> [].
+Proof. exact same_time_version_reaches_back. Qed.
+Print Assumptions C08_same_time_version_refuted.
+
 (* ---- the hypotheses are satisfiable: an ideal signature scheme (a signature names its key and its payload) ---- *)
 Example C08_oracle_correct : forall k p, ideal_ok k p (ideal_sign k p) = true.
 Proof. intros k p. unfold ideal_ok, ideal_sign. cbn. now rewrite !N.eqb_refl. Qed.
